@@ -2,7 +2,7 @@ use std::hash::Hash;
 use std::str::FromStr;
 
 use chrono::Duration;
-use tea_error::{TError, TResult, tbail, tensure};
+use tea_error::{TError, TResult, tbail, tensure, terr};
 
 use crate::convert::*;
 
@@ -116,15 +116,19 @@ impl TimeDelta {
     /// assert_eq!(td.inner, chrono::Duration::seconds(3 * 86400 + 4 * 3600 + 5 * 60 + 6));
     /// ```
     pub fn parse(duration: &str) -> TResult<Self> {
-        let mut nsecs = 0;
-        let mut secs = 0;
-        let mut months = 0;
+        let mut nsecs: i64 = 0;
+        let mut secs: i64 = 0;
+        let mut months: i32 = 0;
         let mut iter = duration.char_indices();
         let mut start = 0;
         let mut unit = String::with_capacity(2);
+        // any arithmetic overflow is a parse error, never a panic
+        let overflow = || terr!(ParseError:"duration '{}' is out of range", duration);
         while let Some((i, mut ch)) = iter.next() {
             if !ch.is_ascii_digit() && i != 0 {
-                let n = duration[start..i].parse::<i64>().unwrap();
+                let n = duration[start..i].parse::<i64>().map_err(|e| {
+                    terr!(ParseError:"invalid number '{}' in the duration string: {}", &duration[start..i], e)
+                })?;
                 loop {
                     if ch.is_ascii_alphabetic() {
                         unit.push(ch)
@@ -143,27 +147,37 @@ impl TimeDelta {
                 }
                 tensure!(!unit.is_empty(), ParseError:"expected a unit in the duration string");
 
+                let scaled = |factor: i64, acc: i64| {
+                    n.checked_mul(factor)
+                        .and_then(|v| acc.checked_add(v))
+                        .ok_or_else(overflow)
+                };
                 match unit.as_str() {
-                    "ns" => nsecs += n,
-                    "us" => nsecs += n * NANOS_PER_MICRO,
-                    "ms" => nsecs += n * NANOS_PER_MILLI,
-                    "s" => secs += n,
-                    "m" => secs += n * SECS_PER_MINUTE,
-                    "h" => secs += n * SECS_PER_HOUR,
-                    "d" => secs += n * SECS_PER_DAY,
-                    "w" => secs += n * SECS_PER_WEEK,
-                    "mo" => months += n as i32,
-                    "y" => months += n as i32 * 12,
+                    "ns" => nsecs = scaled(1, nsecs)?,
+                    "us" => nsecs = scaled(NANOS_PER_MICRO, nsecs)?,
+                    "ms" => nsecs = scaled(NANOS_PER_MILLI, nsecs)?,
+                    "s" => secs = scaled(1, secs)?,
+                    "m" => secs = scaled(SECS_PER_MINUTE, secs)?,
+                    "h" => secs = scaled(SECS_PER_HOUR, secs)?,
+                    "d" => secs = scaled(SECS_PER_DAY, secs)?,
+                    "w" => secs = scaled(SECS_PER_WEEK, secs)?,
+                    "mo" | "y" => {
+                        let factor = if unit == "y" { 12 } else { 1 };
+                        months = i32::try_from(n)
+                            .ok()
+                            .and_then(|v| v.checked_mul(factor))
+                            .and_then(|v| months.checked_add(v))
+                            .ok_or_else(overflow)?
+                    },
                     unit => tbail!(ParseError:"unit: '{}' not supported", unit),
                 }
                 unit.clear();
             }
         }
-        let duration = Duration::seconds(secs) + Duration::nanoseconds(nsecs);
-        Ok(TimeDelta {
-            months,
-            inner: duration,
-        })
+        let inner = Duration::try_seconds(secs)
+            .and_then(|d| d.checked_add(&Duration::nanoseconds(nsecs)))
+            .ok_or_else(overflow)?;
+        Ok(TimeDelta { months, inner })
     }
 
     #[inline(always)]
